@@ -100,6 +100,7 @@ async def""", ["C14"], "failed thread future is swallowed"),
     ("r03_revert_D4", "revert", "0e556e7", "", ["C10", "C01"], "revert fix: indexed activation flag"),
     ("r04_revert_D12", "revert", "3129148", "", ["C10", "C01"], "revert fix: constant False on nested DAG"),
     ("r05_revert_D8", "revert", "c368ba9", "", ["C20", "C01"], "revert fix: explicit argument vs default of nested DAG"),
+    ("r10_revert_P8", "revert", "1d78eef", "", ["C20"], "revert fix: argument stubs of a nested (composed) DAG registered through the usage counter"),
     ("m18_async_as_thread", H, "        if xn.resource == Resource.thread:\n", "        if xn.resource in (Resource.thread, Resource.async_thread):\n", ["C17"],
      "async-thread nodes are submitted and waited like thread nodes (loop blocked)"),
     ("m17_active_whole_value", H, "return bool(xn.active.result(results))", "return bool(results[xn.active.id])", ["C10"],
